@@ -14,10 +14,11 @@ structure ChanFeatures where
   sendAfterWait : Bool        -- the inner send comes after the wait
   recvReleases : Bool         -- `recv` does fetch_sub of the message's size
   tryRecvReleases : Bool      -- `try_recv` does too
+  waitChecksReceiverGone : Bool -- the wait loop ends when the receiving end has been dropped
   deriving DecidableEq, Repr
 
 /-- the protocol the theorems are proved for -/
-def ChanFeatures.ref : ChanFeatures := ⟨true, true, true, true, true, true, true, true⟩
+def ChanFeatures.ref : ChanFeatures := ⟨true, true, true, true, true, true, true, true, true⟩
 
 namespace Chan
 
